@@ -39,6 +39,18 @@ def sdec (c : Container) : Nat → Name → Bytes → Option Bytes
 /-- the schema alone parses `bs` exactly to its end -/
 def Container.describes (c : Container) (bs : Bytes) : Prop := ∃ fuel, sdec c fuel c.decl bs = some []
 
+/-- a definition that can actually be read: enums are non-empty with distinct discriminants that
+fit the tag width, a length range fits its width, an untagged sequence has a single length -/
+def readableDefn : Defn → Bool
+  | .sequence lw lo hi _ => if lw = 0 then lo == hi else decide (lo ≤ hi) && decide (hi < 256 ^ lw)
+  | .enum tw vs =>
+    !vs.isEmpty && vs.all (fun v => decide (0 ≤ v.1) && decide (v.1.toNat < 256 ^ tw)) &&
+      decide ((vs.map (·.1)).Nodup)
+  | _ => true
+
+/-- every definition of the container can be read -/
+def Container.readable (c : Container) : Bool := c.defs.all fun e => readableDefn e.2
+
 mutual
 /-- every declaration `t` refers to is bound as intended -/
 def Bnd (c : Container) : Ty → Prop
